@@ -90,6 +90,48 @@ def exhaustive_lines(mmax, acks=(1000, 2 * 10**9)):
     return out
 
 
+def last_copy_lines():
+    """All copies but the last are lost; the answer to the LAST copy arrives at various offsets after it - in particular
+    just before / at / just after the instant the next copy would have been due - with and without a housekeeping pass
+    in between.  Returns (line, label): label 'window' = no pass since the last copy (the judge demands success up to
+    the would-be instant), 'pass-between' = a pass ran in between (O-C06-2: not demanded, outcome counted)."""
+    out = []
+    for A in (1000, 2 * 10**9):
+        for M in (0, 1, 2, 4):
+            for reaction in ("pig", "ack-resp", "resp-con", "resp-non"):
+                for off in ("0", "1", "half", "due-1", "due", "due+1", "late"):
+                    for between in (False, True):
+                        ops = ["cfg %d %d 1" % (A, M), "send 0 - %s" % ("p7" if M % 2 else "g")]
+                        t = 0
+                        for k in range(1, M + 1):
+                            ops.append("sleep %d" % (k * A + 1 - t))
+                            t = k * A + 1
+                            ops.append("tick 0")
+                        nxt = (M + 1) * A          # a pass later than this would have sent the next copy
+                        target = {"0": t, "1": t + 1, "half": t + A // 2, "due-1": nxt - 1, "due": nxt, "due+1": nxt + 1,
+                                  "late": nxt + A // 2}[off]
+                        if between:
+                            mid = t + max(1, (target - t) // 2)
+                            if mid > t:
+                                ops.append("sleep %d" % (mid - t))
+                                t = mid
+                            ops.append("tick 0")
+                        if target > t:
+                            ops.append("sleep %d" % (target - t))
+                            t = target
+                        if reaction == "pig":
+                            ops.append("pig 0 7")
+                        elif reaction == "ack-resp":
+                            ops += ["ack 0", "sleep 3", "resp 0 non 7"]
+                        elif reaction == "resp-con":
+                            ops.append("resp 0 con 7")
+                        else:
+                            ops.append("resp 0 non 7")
+                        ops += ["tick 0", "cancel 0"]
+                        out.append((" | ".join(ops), "pass-between" if between else "window"))
+    return out
+
+
 KINDS = ["g", "g", "q", "d", "p1", "p7", "p40", "p300", "u3", "u64"]
 
 
@@ -263,6 +305,11 @@ def explore(ctx, art):
     lines += ex
     bursts = burst_lines(random.Random(ctx.seed + 7), 12 if thorough else 4)
     lines += bursts
+    lastc = last_copy_lines()
+    last_label = {}
+    for l, lab in lastc:
+        last_label[len(lines)] = lab
+        lines.append(l)
     nfixed = len(lines)
     classes = {}
     for _ in range(200000 if thorough else 20000):
@@ -300,6 +347,9 @@ def explore(ctx, art):
                     clause, "C06:%s:%s" % (clause, ml), "%s: observed `%s`: %s" % (ml, mo, mj),
                     {"input": [ml], "observed": mo, "judge": mj, "found_as": l,
                      "note": "schedule dependent histories are retried up to %d times on replay" % REPEAT}))
+        if i in last_label:
+            ok = "ret=0.ok:7" in o
+            ctx.count("answer-to-last-copy/%s/%s" % (last_label[i], "call-succeeded" if ok else "call-did-not-succeed"))
         if retransmitted(o):
             distinct.add(l)
         if ".! " in o or ".!," in o:
@@ -324,7 +374,9 @@ def explore(ctx, art):
                        "response without ACK, reply lost then repeated, silence) x 4 tick placements (just after, exactly at then after, just "
                        "before then 1 ns after via a housekeeping clock 2 ns ahead, late) x ACK_TIMEOUT %s ns. Bursts: 2..8 requests of mixed kinds (GET, GET with queries, DELETE, POST/PUT with 1..300-byte payloads "
                        "and extra options) outstanding together and due in the same tick, each history repeated (random map order); every "
-                       "retransmitted datagram is compared byte for byte with the first transmission of its request."
+                       "retransmitted datagram is compared byte for byte with the first transmission of its request. Last-copy window: "
+                       "MAX_RETRANSMIT 0/1/2/4 x 4 peer reactions x 7 arrival offsets after the last copy (0, 1 ns, half a timeout, 1 ns before / at / "
+                       "1 ns after the instant the next copy would have been due, late) x {no pass, a housekeeping pass in between}."
                        % (4 if thorough else 2, "1000 / 2e9 / 1" if thorough else "1000 / 2e9"))
     for l, o in list(zip(lines, impl))[:2] + list(zip(lines, impl))[nfixed:nfixed + 3]:
         ctx.sample({"input": l, "implementation": o})
